@@ -188,12 +188,14 @@ def parseItem (s : String) : Option SeqItem :=
     let x ← if ts.isEmpty then some [] else sequenceOpt ((ts.splitOn "+").map parseTArg)
     pure (.site (← m.toNat?) x (← parseArgs az))
   | ["h", j, m, az] => do pure (.helper (← j.toNat?) (← m.toNat?) (← parseArgs az))
+  -- the call stands in a method of a struct template instead of a function template: the same for the model
+  | ["s", j, m, az] => do pure (.helper (← j.toNat?) (← m.toNat?) (← parseArgs az))
   | ["t", j, "i"] => j.toNat?.map (.trigger · 0)
   | ["t", j, "f"] => j.toNat?.map (.trigger · 1)
   | _ => none
 
 def parseSeqPath (s : String) : Option SeqPath :=
-  if s.isEmpty then some .free else if s == "P=M" then some .method
+  if s.isEmpty then some .free else if s == "P=M" || s == "P=U" then some .method
   else if s.startsWith "P=A." then some .intrinsic else none
 
 /-- `runSeq` with the answers as the protocol prints them: the state machine of `Model.OverloadSeq` decides what each
